@@ -68,6 +68,7 @@ struct Exec {
 Exec *E = nullptr;
 std::vector<Report> g_reports;
 RunStats g_stats;
+uint64_t g_total_steps = 0;
 FatalFn g_fatal = nullptr;
 void (*g_body_done)(int) = nullptr;
 void (*g_thread_exit)(int) = nullptr;
@@ -490,6 +491,12 @@ now_step()
   return E ? E->step : 0;
 }
 
+uint64_t
+total_steps()
+{
+  return g_total_steps + (E ? E->step : 0);
+}
+
 void
 on_body_done(void (*cb)(int))
 {
@@ -571,6 +578,7 @@ run(std::vector<ThreadSpec> &threads, const Schedule &s, const Config &c)
   for (auto &t : th) t.join();
   ex.on = false;
   ex.st.steps = ex.step;
+  g_total_steps += ex.step;
   g_stats = ex.st;
   E = nullptr;
 }
